@@ -3,6 +3,7 @@ C14 — Shocks hit only their target market, in their window, with their magnitu
 (The effect of a fundamental shock on the generated path — only the target's value at that step is
 scaled, earlier values kept, later values continue from the new level — is `Pams.C12.shock_*`.)
 -/
+import PamsLemmas.SrcEvents
 import PamsLemmas.SourceTie
 import PamsModel.Events
 import PamsProps.C13
@@ -106,5 +107,33 @@ theorem nonvacuous :
 /-- (T) `OrderMistakeShock.hooked_before_order` in the current sources: target test `==`, side `> 0` -/
 theorem source_mistake_hook :
     Pams.Source.opsOf "OrderMistakeShock.hooked_before_order" = ["==", ">"] := by decide
+
+
+/-! ### (T2) the current source text of the two shocks, by symbolic execution -/
+section SourceCode
+open Pams.Py Pams.Src
+variable {K : Type} [LinearOrder K] [NumOpsC K]
+
+/-- **the source of `OrderMistakeShock.hooked_before_order` is the model's `mistakeHook`** (the
+order's side, kind, volume, price, lifetime and the shock's flag after the hook) -/
+theorem code_mistake_hook (p rate mp : K) (mkt vol0 ttl vol : Nat) (isBuy trig : Bool) :
+    resultG omsObs (rhoOms p rate mp mkt vol0 ttl vol isBuy trig) evEnv FUEL
+      "OrderMistakeShock.hooked_before_order" [.ref 3, .ref 7, .ref 1] (omsSt true)
+      = (match Events.mistakeHook 5 rate vol ttl { triggered := trig } mkt mp with
+         | (s, some m) => .tuple [.bool m.isBuy, .ref 101, .int m.vol, .num m.price, .int m.ttl, .bool s.triggered]
+         | (s, none) => .tuple [.bool isBuy, .ref 101, .int vol0, .num p, .none, .bool s.triggered]) :=
+  oms_hook p rate mp mkt vol0 ttl vol isBuy trig
+
+/-- **the source of `FundamentalPriceShock.hooked_before_step_for_market`**: inside the window
+exactly one `change_fundamental_price(scale = 1 + rate)` on the target; outside it refuses -/
+theorem code_fundamental_shock (rate : K) (time trigger length : Nat) :
+    resultG callsObs (rhoFps rate time trigger length) evEnv FUEL
+      "FundamentalPriceShock.hooked_before_step_for_market" [.ref 3, .ref 7, .ref 5] fpsSt
+      = (if trigger ≤ time ∧ time < trigger + length then
+           .tuple [.tuple [.str "change_fundamental_price", .ref 5, .num ((NumOpsC.ofInt 1 : K) + rate)]]
+         else .err (.raise "AssertionError")) :=
+  fps_hook rate time trigger length
+
+end SourceCode
 
 end Pams.C14
